@@ -68,6 +68,10 @@ type ArrayV struct {
 type Iface struct {
 	t *TInfo // nil => nil interface
 	v Value
+	// itab: the static interface type this value was converted to (the runtime keeps one itab per
+	// (interface type, dynamic type) pair and compares itab pointers in x.(T), type switches and ==).
+	// nil = unknown/any. Only unsafe views can make it differ from the static type of the slot.
+	itab *TInfo
 }
 
 type FuncV struct {
